@@ -244,8 +244,19 @@ def rule_R14_3(ctx):
             if f.is_cleanup(sb) or f.term(sb)["k"] != "switch":
                 continue
             info = f.switch_info(sb)
-            if not info or info["kind"] != "discr" or not info["enum"].startswith("std::option::Option<eval::value::Value>"):
+            if not info or info["kind"] != "discr":
                 continue
+            if not info["enum"].startswith("std::option::Option<eval::value::Value>"):
+                # `source.map(wrap)`: an Option that is Some exactly when the
+                # callee's source is
+                okm = False
+                if info["enum"].startswith("std::option::Option<eval::value::SourcedValue>"):
+                    cpm = f.canon(info["place"])
+                    cm = f.call_at(cpm[0][1]) if cpm and cpm[0][0] == "call" and len([p for p in cpm if p not in ("&", "*")]) == 1 else None
+                    okm = cm is not None and (cm.res or "").endswith("Option::<T>::map") and cm.argtys \
+                        and cm.argtys[0].startswith("std::option::Option<eval::value::Value>")
+                if not okm:
+                    continue
             some_t = dict(info["cases"]).get("Some")
             if some_t is None:
                 continue
